@@ -15,6 +15,16 @@ pub mod rngs;
 /// The specification's stand-in for `Price::MAX`.
 pub const SPEC_MAX_PRICE: i64 = 1 << 30;
 
+/// High-price regime (DESIGN.md 3.6): the real book holds `price + PRICE_OFFSET` where the specification
+/// holds `price` (limit prices only; the sentinels 0 / `Price::MAX` and market orders are not shifted).
+/// The offset is a multiple of the tick size, so the grid, the levels and every comparison are preserved;
+/// what changes is that the implementation's arithmetic runs next to the top of the `u32` range.
+pub static PRICE_OFFSET: std::sync::atomic::AtomicU32 = std::sync::atomic::AtomicU32::new(0);
+
+pub fn price_offset() -> u32 {
+    PRICE_OFFSET.load(std::sync::atomic::Ordering::Relaxed)
+}
+
 /// Run `f`, turning a panic of the code under test into `Err(message)`.
 pub fn guarded<T, F: FnOnce() -> T + std::panic::UnwindSafe>(f: F) -> Result<T, String> {
     match std::panic::catch_unwind(f) {
